@@ -1231,6 +1231,24 @@ func runC06JSONMerge(c *Ctx) {
 	if n == 0 {
 		c.anchorMissing("Merge calls in the loops of typeOfJSONValue")
 	}
+	// no decision at all in the construction of a JSON value's type rests on a comparison that `any` satisfies
+	construct := "typeOfJSONValue|no branch on a comparison that any satisfies"
+	bad := token.NoPos
+	for _, b := range fn.Blocks {
+		if ifi, ok := b.Instrs[len(b.Instrs)-1].(*ssa.If); ok {
+			if mentionsInvoke(ifi.Cond, "EqualTypes", 0) || mentionsInvoke(ifi.Cond, "Assignable", 0) {
+				bad = ifi.Cond.Pos()
+				if bad == token.NoPos {
+					bad = fn.Pos()
+				}
+			}
+		}
+	}
+	if bad == token.NoPos {
+		c.ok(construct, fn.Pos(), "types are compared by their printed form or not at all")
+	} else {
+		c.bad(construct, bad, "a branch of typeOfJSONValue tests EqualTypes / Assignable, which hold whenever one side is any: a property that already fell back to any (conflicting spellings of one key) is overwritten by the next spelling's specific type, and `fromJSON('{\"Ab\":{\"x\":1},\"aB\":1,\"ab\":2}').ab.x` is rejected")
+	}
 }
 
 func mentionsInvoke(v ssa.Value, method string, d int) bool {
@@ -1291,6 +1309,39 @@ func runC09CycleStart(c *Ctx) {
 				usesIsBefore = true
 			}
 		}
+	}
+	// the candidates that are compared are the keys of the map collectCycle filled (the jobs of the cycle), nothing else
+	overCycle := false
+	if isPhi {
+		for _, call := range findCalls(fn, "(*Pos).IsBefore") {
+			if !blockInCycle(call.Block()) {
+				continue
+			}
+			_, cand := fieldLoad(call.Common().Args[0])
+			ex, ok := cand.(*ssa.Extract)
+			if !ok || ex.Index != 1 {
+				continue
+			}
+			nx, ok := ex.Tuple.(*ssa.Next)
+			if !ok {
+				continue
+			}
+			rg, ok := nx.Iter.(*ssa.Range)
+			if !ok || typeStr(rg.X.Type()) != "map[*jobNode]*jobNode" {
+				continue
+			}
+			for _, cc := range findCalls(fn, "collectCycle") {
+				for _, a := range cc.Common().Args {
+					if a == rg.X {
+						overCycle = true
+					}
+				}
+			}
+		}
+	}
+	if isPhi && usesIsBefore && blockInCycleWith(ph) && !overCycle {
+		c.bad(construct, report.Pos(), "the earliest job is searched among other jobs than the keys of the map collectCycle filled: a job on the search path that is not on the cycle (a lead-in job defined before the cycle) can be chosen, it has no successor in the cycle and printing the cycle dereferences nil")
+		return
 	}
 	if isPhi && usesIsBefore && blockInCycleWith(ph) {
 		c.ok(construct, report.Pos(), "the earliest job of the cycle, found by comparing positions over the cycle's jobs")
@@ -2540,5 +2591,174 @@ func runC06CopyOpen(c *Ctx) {
 				c.bad(construct, rg.Pos(), "the properties are copied into a new object type and the openness (Mapped) of the original is never read: an open object (e.g. the steps context after a step id written as ${{ }}) becomes closed again, and references that were accepted are reported")
 			}
 		})
+	}
+}
+
+// ---- C14.BOOLAGREE ----
+
+// `required` of a reusable workflow's input or secret is derived twice: by (*parser).parseBool when the callee is part of
+// the run, and by an UnmarshalYAML method of a bool-like type when the caller re-parses the callee's file. Which of the
+// two fills the shared cache depends on the schedule, so both must be the same function of the node: a scalar tagged
+// !!bool whose text equals "true" in any letter case. Letting yaml.v3 decode into a Go bool is a different function (it
+// accepts yes/on/y).
+func init() {
+	register(&Rule{ID: "C14.BOOLAGREE", Min: 1, Doc: "the metadata path derives a boolean from a YAML node exactly as the workflow parser does", Run: runC14BoolAgree})
+}
+
+func runC14BoolAgree(c *Ctx) {
+	p := c.P
+	n := 0
+	for _, fn := range p.Funcs {
+		if fn.Name() != "UnmarshalYAML" || fn.Signature.Recv() == nil || fn.Parent() != nil {
+			continue
+		}
+		rt := fn.Signature.Recv().Type()
+		if pt, ok := rt.(*types.Pointer); ok {
+			rt = pt.Elem()
+		}
+		if b, ok := rt.Underlying().(*types.Basic); !ok || b.Kind() != types.Bool {
+			continue
+		}
+		n++
+		construct := FuncName(fn) + "|derivation of the boolean"
+		fns := []*ssa.Function{fn}
+		eachInstr(fn, func(_ *ssa.BasicBlock, _ int, in ssa.Instruction) {
+			if call, ok := in.(*ssa.Call); ok {
+				if g := staticCallee(&call.Call); g != nil && inModule(g) && g.Blocks != nil {
+					fns = append(fns, g)
+				}
+			}
+		})
+		fold, tag, decode := false, false, false
+		for _, g := range fns {
+			eachInstr(g, func(_ *ssa.BasicBlock, _ int, in ssa.Instruction) {
+				switch x := in.(type) {
+				case *ssa.Call:
+					switch calleeFullName(&x.Call) {
+					case "strings.EqualFold":
+						for i, a := range x.Call.Args {
+							if s, ok := constString(a); ok && s == "true" {
+								if f, _ := fieldLoad(x.Call.Args[1-i]); strings.HasSuffix(f, "Node.Value") {
+									fold = true
+								}
+							}
+						}
+					case "(*gopkg.in/yaml.v3.Node).Decode":
+						decode = true
+					}
+				case *ssa.BinOp:
+					if x.Op == token.EQL || x.Op == token.NEQ {
+						for i, a := range []ssa.Value{x.X, x.Y} {
+							if s, ok := constString(a); ok && s == "!!bool" {
+								if f, _ := fieldLoad([]ssa.Value{x.Y, x.X}[i]); strings.HasSuffix(f, "Node.Tag") {
+									tag = true
+								}
+							}
+						}
+					}
+				}
+			})
+		}
+		switch {
+		case decode:
+			c.bad(construct, fn.Pos(), "the value is left to (*yaml.Node).Decode, which also accepts yes/on/y and fails on ${{ }}: the workflow parser reads `required: yes` as a string, so the two derivations of the callee's interface disagree and the caller's diagnostics depend on which goroutine fills the cache")
+		case !fold || !tag:
+			c.bad(construct, fn.Pos(), "the value is not derived as the workflow parser derives it (tag !!bool and text equal to \"true\" in any letter case): for `required: True` the two derivations of the callee's interface disagree and the caller's diagnostics depend on which goroutine fills the cache")
+		default:
+			c.ok(construct, fn.Pos(), "tag !!bool and strings.EqualFold(text, \"true\"), as (*parser).parseBool")
+		}
+	}
+	if n == 0 {
+		c.anchorMissing("an UnmarshalYAML method of a bool-like type (metadataBool)")
+	}
+}
+
+// ---- C17.PATHONLY ----
+
+// "Every pattern accepted as a ref filter is also accepted as a path filter": whatever ValidatePathGlob rejects before
+// it enters the shared validator must be rejected for refs as well. Today that is a leading or trailing ASCII space, a
+// character the ref rules forbid anywhere. A test that is wider than a constant made of such characters (Unicode space
+// classes, trimming functions) rejects path filters that are valid ref filters.
+func init() {
+	register(&Rule{ID: "C17.PATHONLY", Min: 1, Doc: "what the path validator rejects on its own is rejected by the ref rules too", Run: runC17PathOnly})
+}
+
+func runC17PathOnly(c *Ctx) {
+	p := c.P
+	fn := p.Func("ValidatePathGlob")
+	if fn == nil {
+		c.anchorMissing("ValidatePathGlob")
+		return
+	}
+	construct := "ValidatePathGlob|rejections of its own"
+	n := 0
+	var bad []string
+	at := fn.Pos()
+	for _, b := range fn.Blocks {
+		ifi, ok := b.Instrs[len(b.Instrs)-1].(*ssa.If)
+		if !ok {
+			continue
+		}
+		n++
+		okCond := false
+		if call, isCall := ifi.Cond.(*ssa.Call); isCall {
+			switch calleeFullName(&call.Call) {
+			case "strings.HasPrefix", "strings.HasSuffix":
+				if s, isC := constString(call.Call.Args[1]); isC && s != "" && strings.Trim(s, " ~^:") == "" {
+					okCond = true
+				}
+			}
+		}
+		if !okCond {
+			bad = append(bad, describeCond(ifi.Cond))
+			if ifi.Cond.Pos() != token.NoPos {
+				at = ifi.Cond.Pos()
+			}
+		}
+	}
+	if len(bad) == 0 {
+		c.ok(construct, fn.Pos(), fmt.Sprintf("%d tests, each for a leading/trailing constant made of characters the ref rules forbid", n))
+	} else {
+		sort.Strings(bad)
+		c.bad(construct, at, "the path validator rejects on a condition of its own that is not a leading/trailing constant of characters forbidden in refs ("+strings.Join(bad, "; ")+"): a pattern such as \"release\\u00a0\" is a valid ref filter and an invalid path filter")
+	}
+}
+
+// ---- C20.JSONWHOLE ----
+
+// "(shellcheck) prints non-JSON yields a fatal error": the whole output has to be JSON. json.Unmarshal rejects anything
+// after the first value; a json.Decoder stops after the first value and ignores what follows (a second array, a crash
+// message), silently dropping diagnostics.
+func init() {
+	register(&Rule{ID: "C20.JSONWHOLE", Min: 1, Doc: "the output of shellcheck is decoded as a whole, trailing data is an error", Run: runC20JSONWhole})
+}
+
+func runC20JSONWhole(c *Ctx) {
+	p := c.P
+	n := 0
+	for _, fn := range p.Funcs {
+		if !strings.HasSuffix(p.File(fn.Pos()), "/rule_shellcheck.go") {
+			continue
+		}
+		unm := findCalls(fn, "encoding/json.Unmarshal")
+		dec := findCalls(fn, "(*encoding/json.Decoder).Decode")
+		if len(unm)+len(dec) == 0 {
+			continue
+		}
+		n++
+		construct := FuncName(fn) + "|decoding of the tool output"
+		if len(dec) == 0 {
+			c.ok(construct, unm[0].Pos(), "json.Unmarshal: anything after the first value is a syntax error")
+			continue
+		}
+		more := len(findCalls(fn, "(*encoding/json.Decoder).More"))+len(findCalls(fn, "(*encoding/json.Decoder).Token")) > 0 || len(dec) > 1
+		if more {
+			c.ok(construct, dec[0].Pos(), "streaming decoder, and the rest of the stream is examined")
+		} else {
+			c.bad(construct, dec[0].Pos(), "a json.Decoder stops after the first JSON value: output such as `[{A}]\\n[{B}]` or `[]\\nshellcheck: crash` loses B / the crash without any error")
+		}
+	}
+	if n == 0 {
+		c.anchorMissing("JSON decoding of the shellcheck output in rule_shellcheck.go")
 	}
 }
